@@ -285,6 +285,8 @@ var reg = vk.Registry{"framing": func(raw json.RawMessage) *vk.Violation {
 	return check(c)
 }}
 
+func init() { reg["sequence"] = vk.SequenceReplayer(reg) }
+
 func TestReplay(t *testing.T) { vk.RunReplay(t, reg) }
 
 func frameOf(body []byte) []byte {
@@ -423,7 +425,7 @@ func eval(t vk.TB, c Case, constructed bool) {
 	if s, _ := c.stream(); len(s) <= 80 {
 		rec.Sample(c.Mode, c)
 	}
-	rec.Report(t, "framing", check(c))
+	rec.ReportSeq(t, "framing", c, func() *vk.Violation { return check(c) })
 }
 
 func TestRandomStreams(t *testing.T) {
